@@ -73,6 +73,17 @@ def compile_files(files):
         for n, t in files.items():
             with open(os.path.join(d, n), 'w', encoding='utf-8') as f:
                 f.write(t)
+        if 'inc.mal' in files:
+            # the include path held a well-formed file during an earlier compilation in this process
+            bad = files['inc.mal']
+            with open(os.path.join(d, 'inc.mal'), 'w', encoding='utf-8') as f:
+                f.write('#early: "ok"\n')
+            try:
+                MalCompiler().compile(os.path.join(d, 'main.mal'))
+            except Exception:
+                pass
+            with open(os.path.join(d, 'inc.mal'), 'w', encoding='utf-8') as f:
+                f.write(bad)
         comp = MalCompiler()
         try:
             r = comp.compile(os.path.join(d, 'main.mal'))
